@@ -142,7 +142,18 @@ func checkFrame(f *gen.ProgFunc, cl *stack.Call) string {
 			break // a kind outside the property's list: everything from here on is "no crash" only
 		}
 		if e.first+e.pp.Words > shown {
-			break // beyond what the runtime printed: not shown, never wrong
+			// beyond what the runtime printed: not shown, never wrong - unless the parameter straddles the cut and
+			// its rendering states, for a word that was never printed, a length or capacity the program did not pass
+			if e.first < shown && i < len(cl.Args.Processed) && (e.pp.WantTag == "string" || strings.HasPrefix(e.pp.WantTag, "[]")) {
+				got := cl.Args.Processed[i]
+				for _, m := range lenCapRe.FindAllStringSubmatch(got, -1) {
+					v, _ := strconv.Atoi(m[2])
+					if (m[1] == "len" && v != e.pp.Len) || (m[1] == "cap" && v != e.pp.Cap) {
+						return fmt.Sprintf("parameter %d %s straddles the %d words the runtime printed: rendered %q, which states %s=%d; the program passed len=%d cap=%d (%s)", i, e.pp.Kind, shown, got, m[1], v, e.pp.Len, e.pp.Cap, e.pp.Lit)
+					}
+				}
+			}
+			break
 		}
 		if i >= len(cl.Args.Processed) {
 			return fmt.Sprintf("parameter %d (%s) has no rendering: Processed=%q", i, e.pp.Kind, cl.Args.Processed)
@@ -189,6 +200,9 @@ func checkFrame(f *gen.ProgFunc, cl *stack.Call) string {
 	}
 	return ""
 }
+
+// lenCapRe finds the decimal lengths and capacities a rendering states.
+var lenCapRe = regexp.MustCompile(`\b(len|cap)=(\d+)\b`)
 
 // srcParses tells whether the file on disk is syntactically valid Go.
 // declFirstParam matches the opening of a function declaration whose first parameter is p0 (declarations only: a
